@@ -31,10 +31,16 @@ ASSUMPTIONS = [
 
 def sources_for(prop):
     """list of (family, group filter, property under which the counterexample is re-checked concretely)"""
+    if prop == 'C18':
+        return [('H-HIST', lambda G: G['prop'] == 'C18', None), ('H-EVAL', lambda G: G['prop'] == 'C18', None)]
+    if prop == 'C09':
+        return [('H-EVAL', lambda G: G['prop'] == 'C09', None), ('H-RESUME', lambda G: G['prop'] == 'C09', None)]
     if prop in HEVAL_PROPS or prop == 'C20':
         return [('H-EVAL', lambda G: G['prop'] == prop, None)]
     if prop == 'C14':
         return [('H-ORDER', lambda G: G['prop'] == 'C14', None)]
+    if prop == 'C12':
+        return [('H-EVAL2', lambda G: True, None)]
     if prop == 'C15':
         # comparison-specific violations only: seen under S-rel / S-prod and not under string inequality
         rel_only = lambda G: 'ident' not in G.get('modes', [])
@@ -67,7 +73,9 @@ def run_property(prop, tier, seed, mod, bins, dt, log):
                 continue
             for exm in g['examples'][:2]:
                 cprop = g['prop'] if reprop == 'group' else prop
-                if g['prop'] == 'C14':
+                if exm.get('chain'):
+                    ok, why, native = confirm_chain(mod, bins, exm, g['prop'])
+                elif g['prop'] == 'C14':
                     ok, why, native = confirm_pair(mod, bins, exm)
                 else:
                     sc = S.Scenario.from_json(exm['scenario'])
@@ -80,8 +88,9 @@ def run_property(prop, tier, seed, mod, bins, dt, log):
                 path = os.path.join(outdir, 'cex-%d.json' % n)
                 rec_json = {'property': prop, 'what': exm['what'], 'group': gk, 'count_in_exploration': g['count'],
                             'scenario': exm['scenario'], 'path_condition': exm.get('pc'), 'native_trace': native, 'family': family}
-                if 'scenario2' in exm:
-                    rec_json['scenario2'] = exm['scenario2']
+                for kx in ('scenario2', 'scenario3', 'chain'):
+                    if kx in exm:
+                        rec_json[kx] = exm[kx]
                 json.dump(rec_json, open(path, 'w'), indent=1)
                 k = CK.match_known(known, prop, exm['what'], native)
                 rec = {'group': gk, 'what': exm['what'], 'replay': path, 'count': g['count']}
@@ -113,6 +122,96 @@ def final_outcome(trace, classes):
         for part in states[7:].split(';'):
             norm.append(re.sub(r'FinishedSuccess\w*', 'FinishedSuccess', part))
     return tuple(norm), hist
+
+
+def native_checked(mod, bins, sc):
+    a = S.run_mirsym(mod, sc)
+    b = S.run_native(bins[0], [sc]).get(sc.name, [])
+    d = S.diff_traces(a, b)
+    if d is not None:
+        return None, 'model/native trace mismatch at line %d:\n  mirsym: %s\n  native: %s' % d
+    return b, None
+
+
+def trace_info(trace):
+    """(accepted run events, ok events, history dict, final states) from a native trace"""
+    started = []
+    hist = {}
+    for l in trace:
+        f = l.split('\t')
+        if f[0] == 'H':
+            hist[f[1]] = f[2]
+    return hist
+
+
+def confirm_chain(mod, bins, exm, prop):
+    """two-evaluation counterexamples: the first evaluation is replayed natively, the history it returns must be the
+    one the second scenario starts from, then the second (and the uninterrupted twin) are replayed natively and the
+    claim is re-established from the native traces alone"""
+    sc1 = S.Scenario.from_json(exm['scenario'])
+    sc2 = S.Scenario.from_json(exm['scenario2'])
+    n1, err = native_checked(mod, bins, sc1)
+    if n1 is None:
+        return False, err, []
+    h1 = {}
+    for l in n1:
+        f = l.split('\t')
+        if f[0] == 'H':
+            h1[S.unesc(f[1])] = S.unesc(f[2])
+    if h1 != sc2.hist:
+        return False, 'history returned natively by the first evaluation is not the one predicted for the second: %r vs %r' % (sorted(h1.items()), sorted(sc2.hist.items())), n1
+    n2, err = native_checked(mod, bins, sc2)
+    if n2 is None:
+        return False, err, n1
+    cl = dict(sc2.classes) if sc2.strategy != 'ident' else {}
+    kinds = dict(sc2.nodes)
+    started2 = [e[1] for e in sc2.events if e[0] == 'run']
+    h2 = {}
+    for l in n2:
+        f = l.split('\t')
+        if f[0] == 'H':
+            h2[S.unesc(f[1])] = S.unesc(f[2])
+    native = n1 + ['--- second evaluation'] + n2
+
+    def norm(h):
+        return {k: (v if k.endswith('!!!') else cl.get(v, v)) for k, v in h.items()}
+    if prop == 'C12':
+        if any(kinds[j] == 'Output' for j in started2):
+            return True, 'reproduced', native
+        if any(kinds[j] == 'Ephemeral' for j in started2) and 'no Always job consumes' in exm['what']:
+            return True, 'reproduced', native
+        if norm(h2) != norm(h1):
+            return True, 'reproduced', native
+        # other monitors' violations inside the second evaluation: accept when the single-evaluation replay confirms
+        ok, why, nat = CK.confirm(mod, bins, sc2, prop)
+        return ok, why, native
+    if prop == 'C09':
+        ok1 = [e[1] for e in sc1.events if e[0] == 'ok']
+        okres = [l.split('\t')[3] for l in n1 if l.startswith('E\t') and l.split('\t')[2] == 'ok']
+        succeeded = set(j for j, r in zip(ok1, okres) if r == 'ok')
+        if any(j in succeeded and kinds[j] == 'Output' for j in started2):
+            return True, 'reproduced', native
+        if 'scenario3' in exm:
+            sc3 = S.Scenario.from_json(exm['scenario3'])
+            n3, err = native_checked(mod, bins, sc3)
+            if n3 is None:
+                return False, err, native
+            native = native + ['--- uninterrupted evaluation'] + n3
+            started3 = set(e[1] for e in sc3.events if e[0] == 'run')
+            h3 = {}
+            for l in n3:
+                f = l.split('\t')
+                if f[0] == 'H':
+                    h3[S.unesc(f[1])] = S.unesc(f[2])
+            if not set(started2) <= started3:
+                return True, 'reproduced', native
+            outs = set(j for j, k in kinds.items() if k == 'Output')
+            if (succeeded | set(started2)) & outs != started3 & outs:
+                return True, 'reproduced', native
+            if norm(h2) != norm(h3):
+                return True, 'reproduced', native
+        return False, 'claim not re-established from the native traces', native
+    return False, 'no native oracle for %s chains' % prop, native
 
 
 def confirm_pair(mod, bins, exm):
